@@ -21,6 +21,5 @@ static void purge_event(int kind, void* addr, size_t len, int arg, int failed) {
 static void install_purge_police(Exec&) { vf_set_event_fn(&purge_event); }
 
 static void gen_option_prefix(Gen&) {}
-static void gen_zero_chain_case(Gen& g) { g.history(); }
 static bool generate_special(const std::string&, Chooser&, uint64_t, Case&) { return false; }
 static bool execute_special(const std::string&, const Case&, Exec&) { return false; }
